@@ -23,7 +23,7 @@ import (
 // ---- read-your-writes through the follower API ------------------------------------------------------
 
 type WOp struct {
-	Kind string `json:"kind"` // put | delrange | txn | txn-empty-branch | restart-follower | reset-table
+	Kind string `json:"kind"` // put | delrange | txn | txn-empty-branch | restart-follower | reset-table | recover-table
 	K    []byte `json:"k"`
 	V    []byte `json:"v,omitempty"`
 	End  []byte `json:"end,omitempty"`
@@ -41,7 +41,10 @@ func genRYW(t *rapid.T) RYWCase {
 	n := rapid.IntRange(1, 8).Draw(t, "n")
 	for i := 0; i < n; i++ {
 		op := WOp{K: rapid.SampledFrom(rywKeys).Draw(t, "k"), V: []byte(fmt.Sprintf("v%d", i))}
-		switch rapid.IntRange(0, 7).Draw(t, "kind") {
+		switch rapid.IntRange(0, 8).Draw(t, "kind") {
+		case 8:
+			// the follower's copy of the table is replaced by a snapshot recovery (what the worker does once the leader compacted its log)
+			op.Kind = "recover-table"
 		case 7:
 			// an operator resets the follower's copy of the table (maintenance API): its recorded leader index goes back to 0 and the
 			// worker replicates the table again from the start
@@ -121,7 +124,7 @@ func runRYW(c RYWCase, o *vt.Obs) *vt.Failure {
 
 	m := model.New()
 	emptyBranch := 0
-	restarts, resets := 0, 0
+	restarts, resets, recoveries := 0, 0, 0
 	for i, op := range c.Ops {
 		if op.Kind == "reset-table" {
 			tb, err := p.F.E.GetTable(name)
@@ -135,6 +138,20 @@ func runRYW(c RYWCase, o *vt.Obs) *vt.Failure {
 				return nil
 			}
 			resets++
+			continue
+		}
+		if op.Kind == "recover-table" {
+			stopPoller()
+			rerr := p.Worker(name, 2).Recover()
+			if rerr == nil {
+				rerr = p.F.WaitTablePatient(name, 20*time.Second)
+			}
+			startPoller()
+			if rerr != nil {
+				vt.Inconclusive("C11 table recovery: " + rerr.Error())
+				return nil
+			}
+			recoveries++
 			continue
 		}
 		if op.Kind == "restart-follower" {
@@ -227,6 +244,9 @@ func runRYW(c RYWCase, o *vt.Obs) *vt.Failure {
 	}
 	if resets > 0 {
 		o.Label("follower-table-reset-between-forwarded-writes")
+	}
+	if recoveries > 0 {
+		o.Label("follower-table-recovered-from-snapshot-between-forwarded-writes")
 	}
 	o.NonTrivial = emptyBranch > 0 || len(c.Ops) >= 3
 	o.Describe = func() string { return fmt.Sprintf("%+v", c) }
